@@ -118,3 +118,37 @@ func VerifBitsSe() {
 	symapi.Assert(r.Offset() == next, "se-offset")
 	symapi.Reach("end")
 }
+
+// VerifBitsUeWide: Exp-Golomb codes of every width up to 63 bits (0..31 leading zeros) in a
+// buffer with plenty of data behind them (an SPS with HRD bit rates, offsets ...): the value
+// is 2^lz - 1 + info and exactly 2*lz+1 bits are consumed, for symbolic info bits and a
+// symbolic start offset.
+func VerifBitsUeWide() {
+	lz := symapi.Choose("leadingZeros", 32)
+	info := symapi.Uint32("info")
+	off := symapi.IntRange("off", 0, 7)
+	buf := make([]byte, 16)
+	set := func(pos int, b byte) { buf[pos/8] |= (b & 1) << uint(7-pos%8) }
+	pos := off + lz
+	set(pos, 1)
+	pos++
+	var val uint64
+	for i := lz - 1; i >= 0; i-- {
+		b := byte(info>>uint(i)) & 1
+		set(pos, b)
+		pos++
+		val |= uint64(b) << uint(i)
+	}
+	for ; pos < 128; pos++ { // trailing data: more codes follow in a real parameter set
+		set(pos, byte(pos)&1)
+	}
+	want := uint64(1)<<uint(lz) - 1 + val
+	r := NewReader(buf)
+	r.Skip(off)
+	got := r.ReadUe()
+	if lz < 32 && want < 1<<32-1 {
+		symapi.Assert(uint64(got) == want, "ue-value")
+	}
+	symapi.Assert(r.Offset() == off+2*lz+1, "ue-consumes-2lz+1-bits")
+	symapi.Reach("end")
+}
